@@ -174,6 +174,21 @@ impl crate::hist::Checker for SysPlan {
         use crate::deploy::{HUB, USEI};
         use crate::ops::ROp;
         let (o0, o1, step) = (cx.o0, cx.o1, cx.step);
+        // the list the hub plans over is the registry's query answer: it must be the whole registered set with the
+        // hub's actual delegations
+        {
+            let mut listed: Vec<String> = o1.registry_query.iter().map(|x| x.0.clone()).collect();
+            listed.sort();
+            let faithful = listed == o1.registry
+                && o1.registry_query.iter().all(|(val, d)| *d == *o1.delegations.get(val).unwrap_or(&0));
+            if !faithful {
+                out.fail(v(
+                    "system/delegation-query-misreports",
+                    format!("after {}: GetValidatorsForDelegation answers {:?} but the registry stores {:?} and the hub's delegations are {:?}", step.desc(), o1.registry_query, o1.registry, o1.delegations),
+                ));
+                return;
+            }
+        }
         if !step.ok() || !matches!(step.rop, ROp::Bond { .. } | ROp::UpdateIndex { .. }) || o0.registry != o1.registry {
             return;
         }
